@@ -277,6 +277,9 @@ class Device(object):
         self.stalled = False
         self.stall_next = None
         self.filler_n = 0
+        ms = self.spec.get('maxdata_sessions')
+        if ms:
+            self.maxdata = int(ms[min(max(0, self.sessions - 1), len(ms) - 1)])
         self.auth_spec = self.spec.get('auth')
         if isinstance(self.auth_spec, list):
             # one auth behaviour per session (repeated connect() calls)
@@ -890,6 +893,17 @@ class SyncService(object):
         # The OKAY for this host WRITE and anything the service said in reaction to it race
         # (the ack is sent when the service has taken the data). Order from the scenario.
         okay = Pkt(W.A_OKAY, s.remote, s.local, kind='ack')
+        late = dev.spec.get('ack_delay')
+        if late and late.get('nth') == self.host_wrtes - 1:
+            # the service is slow to take this WRITE (e.g. flushing to slow storage): its OKAY comes late, not never
+            for p in list(s.outq)[n_before:]:
+                s.outq.remove(p)
+            s.last_ready = max([now] + [q.ready for q in s.outq])
+            dev._q(s, okay, now, lat=late['delay'])
+            for p in produced:
+                dev._q(s, p, now)
+            dev.probe('late_okay')
+            return
         rbo = int(dev.spec.get('reply_before_okay', 0) or 0)
         if produced and rbo > 0 and not any(p.kind == 'fail' for p in produced):
             # the service's reply overtakes the ack of the request: up to `rbo` reply WRITEs go out before the OKAY
